@@ -79,6 +79,7 @@ type pGene struct {
 	Sc  int  `json:"sc"`
 	Dc  int  `json:"dc"`
 	Tc  int  `json:"tc"`
+	Lpc int  `json:"lpc"` // identity of the backing array of Link.Params (0: none) - mutable state like everything else
 }
 type pEnd struct {
 	N int `json:"n"`
@@ -154,6 +155,9 @@ func (in *interner) genome(g *genetics.Genome) pGenome {
 		pg := pGene{Inn: int(gn.InnovationNum), Src: l.InNode.Id, Dst: l.OutNode.Id, Rec: l.IsRecurrent, En: gn.IsEnabled,
 			W: in.f(l.ConnectionWeight), Mut: in.f(gn.MutationNum), Tr: traitId(l.Trait),
 			C: in.p(gn, false), Lc: in.p(l, false), Sc: in.p(l.InNode, false), Dc: in.p(l.OutNode, false), Tc: in.p(l.Trait, l.Trait == nil)}
+		if len(l.Params) > 0 {
+			pg.Lpc = in.p(unsafe.Pointer(&l.Params[0]), false)
+		}
 		r.Genes = append(r.Genes, pg)
 	}
 	for _, cg := range g.ControlGenes {
